@@ -318,7 +318,9 @@ func (r *R) Gen(ctx sdk.Context, g *hx.Rng) string {
 			prov = fmt.Sprintf("P%d", g.Intn(nProv)) // possibly not asked / already answered
 		}
 		spec := "err"
-		if !g.Chance(1, 12) {
+		if g.Chance(1, 25) {
+			spec = []string{"x", "h"}[g.Intn(2)]
+		} else if !g.Chance(1, 12) {
 			// per feed and batch a sign bias, so that all-negative, all-positive and mixed batches all occur
 			bias := []int{0, 100, 50, 100}[(p.fi.rc.BatchCounter+uint64(len(p.fi.feed.FeedName)))%4]
 			if g.Chance(1, 6) {
